@@ -389,7 +389,19 @@ def build_unit(template_path, repo_root, vacuity=False):
     line_table[i] (0-based output line) = dict(kind='tmpl', line=n) | dict(kind='src', file, line, fn, tag)
     """
     ex = Extractor(repo_root)
-    tl = open(template_path).read().split('\n')
+
+    def load(path, depth=0):
+        out = []
+        for ln in open(path).read().split('\n'):
+            mi = re.match(r'^\s*//@INCLUDE\s+(\S+)\s*$', ln)
+            if mi:
+                if depth > 4:
+                    raise ExtractError('INCLUDE nesting too deep')
+                out += load(os.path.join(os.path.dirname(template_path), mi.group(1)), depth + 1)
+            else:
+                out.append(ln)
+        return out
+    tl = load(template_path)
     out_lines = []
     table = []
     fns = []
